@@ -295,7 +295,16 @@ def commands_for(state, tasks, root):
         add("archive (nothing)", fixed("archive"))
         add("clean -f", fixed("clean", "-f"))
         add("run unknown task", fixed("run", "//:nope"))
+        # the short spelling `:name` of a task of the ROOT package means //:name from every directory (also from a package directory)
+        add("run --check short id", fixed("run", ":all", "--check"))
+        add("run short id", fixed("run", ":all"))
+        for t in [t for t in rcs + exps if not t.pkg][:1]:
+            add("where -f short id", fixed("where", "-f", ":" + t.name))
     elif state == "S2":
+        add("run --check short id", fixed("run", ":all", "--check"))
+        add("archive short id", fixed("archive", ":all"))
+        for t in [t for t in rcs + exps if not t.pkg][:2]:
+            add("where short id " + t.kind, fixed("where", ":" + t.name))
         add("run all", fixed("run", "//:all"))
         add("run all --again", fixed("run", "//:all", "--again"))
         add("run --check", fixed("run", "//:all", "--check"))
@@ -529,7 +538,7 @@ def _work_one(job):
                 name = observed[1][-1] if observed[0] == "ok" else "N"
                 model_cases.append(("archive", cwd_parts, parts_of(root), o_arg, name, ex, dirs, observed, state, label, cwd_rel))
         if obs["argv"][0] == "where" and obs["code"] == 0 and obs["stdout"]:
-            t = byid[obs["argv"][-1]]
+            t = byid[("//" + obs["argv"][-1]) if obs["argv"][-1].startswith(":") else obs["argv"][-1]]
             expected = parts_of(os.path.join(root, out_rel(t.pkg, t.name, latest.get(t.id) if t.kind == "exp" else None)))
             model_cases.append(("where", parts_of(root), "-p" in obs["argv"], implrun.strip_ansi(obs["raw_out"]).strip().splitlines()[-1], expected, state, label, cwd_rel))
     shutil.rmtree(work, ignore_errors=True)
